@@ -2,7 +2,7 @@ from vlib import Job
 
 GLUE = ["__parsec_schedule", "__parsec_schedule_vp", "__parsec_schedule_flush_private", "__parsec_reschedule"]
 MODS = ["ap", "ip", "rnd", "spq", "gd"]          # covered modules (history jobs); ll, lfq, lhq, ltq, pbq, llp: NOT covered
-MODFN = [f % m for m in MODS for f in ("sched_%s_schedule", "sched_%s_select")]
+MODFN = [f % m for m in MODS for f in ("sched_%s_schedule", "sched_%s_select")] + ["lifo_chain_sorted", "lifo_merge_ring"]
 # recursion / class-table loops of the object system, spin lock without contention
 US = {"expand_array.0": 11, "parsec_atomic_lock.0": 2, "parsec_obj_destruct_and_free": 1, "parsec_obj_run_destructors": 1,
       "parsec_obj_destruct": 1}
@@ -84,6 +84,33 @@ def jobs(tier):
                              bounded="history shape '%s' from the freshly initialised module, %d stream(s) (stream of every operation, "
                                      "distances 0..1e6, priorities, rand() answers symbolic)" % (sc, ns),
                              functions=["sched_%s_schedule" % m, "sched_%s_select" % m], min_obligations=8, timeout=600))
+    # ---------------- part 3: llp helpers (lifo_chain_sorted / lifo_merge_ring), sequential and rely/guarantee
+    def lus(maxfail, maxrepeat, n):
+        return {"lifo_chain_sorted.1": maxfail + 2, "lifo_chain_sorted.3": maxfail + 2, "lifo_chain_sorted.4": maxrepeat + 1,
+                "lifo_chain_sorted.2": n + 1, "lifo_merge_ring.0": n + 1, "lifo_merge_ring.1": n + 1}
+
+    def lb(n, k, extra=""):
+        return "pool of %d items, ring of %d (priorities, initial stack, distance 0..%d symbolic)%s" % (n, k, n, extra)
+    SEQ = [(3, 1, 0), (3, 1, 1), (3, 2, 0)] + ([(3, 2, 1), (4, 1, 0), (4, 2, 0), (4, 3, 1)] if full else [])
+    for n, k, sw in SEQ:
+        J.append(Job("llp.seq.chain_sorted.n%d.k%d.sw%d" % (n, k, sw), "h_llp.c", entry="h_seq_chain_sorted",
+                     defines={"NPOOL": n, "K": k, "SW": sw}, unwind=n + 2, unwindset=lus(0, 0, n), bounded=lb(n, k),
+                     functions=["lifo_chain_sorted", "lifo_merge_ring"], min_obligations=6, timeout=600))
+    for n, k in [(3, 1), (3, 2)] + ([(4, 2), (4, 3)] if full else []):
+        J.append(Job("llp.merge_ring.n%d.k%d" % (n, k), "h_llp.c", entry="h_merge_ring", defines={"NPOOL": n, "K": k},
+                     unwind=n + 2, unwindset=lus(0, 0, n), bounded=lb(n, k), functions=["lifo_merge_ring"],
+                     min_obligations=4, timeout=600))
+    RG = [(3, 1, 0, 1, 0), (3, 1, 1, 1, 0)] + ([(3, 2, 0, 1, 0), (3, 2, 1, 1, 0), (3, 1, 0, 2, 0), (3, 1, 0, 1, 1)] if full else [])
+    for (n, k, sw, mf, mr), ds in [(r, None) for r in RG]:     # ds = 0 / 1: optional case split of the distance domain (DISTSEL)
+        J.append(Job("llp.rg.chain_sorted.n%d.k%d.sw%d.f%d.r%d.%s" % (n, k, sw, mf, mr, "dall" if ds is None else "d0" if ds == 0 else "dpos"), "h_llp.c",
+                     entry="h_rg_chain_sorted",
+                     defines=dict({"NPOOL": n, "K": k, "SW": sw, "MAXFAIL": mf, "MAXREPEAT": mr}, **({} if ds is None else {"DISTSEL": ds})),
+                     unwind=n + 2,
+                     unwindset=lus(mf, mr, n),
+                     bounded=lb(n, k, "; distance %s in this process; at most %d environment-induced CAS failure(s) and %d 'goto repeat' round(s); environment acts "
+                                      "before and after each fence / CAS" % ("0..%d" % n if ds is None else "== 0" if ds == 0 else ">= 1", mf, mr)),
+                     functions=["lifo_chain_sorted", "lifo_merge_ring"], min_obligations=12, timeout=1800 if full else 600, mem_gb=8,
+                     object_bits=10 if mr else None))     # the second round doubles the number of addressed (local) objects
     return J
 
 
@@ -100,7 +127,13 @@ META = dict(
                 "per pool task); along a history from the freshly initialised module (scripts of schedule(ring of k) and select operations, the "
                 "stream of each operation, distances, priorities symbolic) every select answers NULL iff the ghost multiset is empty, otherwise a "
                 "held task (st == 1: exactly once), schedule answers PARSEC_SUCCESS and writes no priority / task_class (rnd: priority excluded, "
-                "it is overwritten by design), and every history ends with the module empty and every task returned exactly once.",
+                "it is overwritten by design), and every history ends with the module empty and every task returned exactly once. "
+                "Part 3 (h_llp.c): the llp helpers lifo_chain_sorted (128-bit CAS variant) and lifo_merge_ring of the real sched_llp_module.c, "
+                "sequential contracts and a rely/guarantee check in the style of C30: abstract stack ghost, the environment replaces the shared "
+                "LIFO by any Rely-conforming state before and after each fence / CAS (VERIF_RG_POST_STEP), guarantees asserted at my successful "
+                "CAS (fast-path push: ring in order in front of the current stack; detach: whole stack becomes mine and my ring is again a "
+                "well-formed ring of exactly my tasks; re-attach: the installed chain is acyclic and holds every ring task and every detached "
+                "task exactly once), nothing left private on return.",
     trusted_base=["recording stub for parsec_current_scheduler->module.schedule; parsec_pins_instrument, parsec_output no-ops; "
                   "parsec_my_execution_stream answers the caller's stream (stream 0 of VP 0 for a NULL submitter)",
                   "parsec_barrier_wait stubbed as a no-op: streams run flow_<M>_init one after the other, stream 0 first; rand() stubbed as a non-negative nondeterministic value",
@@ -111,7 +144,12 @@ META = dict(
                   "sched_<M>_remove is compiled under another name and the module descriptor's remove slot points to an empty function "
                   "(preprocessor trick in h_mod.c; CBMC otherwise resolves constructor calls of the object system to it); it is not under contract",
                   "cbmc --paths lifo (path-wise symbolic execution) for the history jobs",
-                  "composition of per-operation contracts into arbitrary histories is by enumeration of history shapes, not by induction"],
+                  "composition of per-operation contracts into arbitrary histories is by enumeration of history shapes, not by induction",
+                  "llp: rely/guarantee soundness theorem; the Rely of h_llp.c (counter unchanged => stack unchanged; my items untouched; with "
+                  "single_writer the others only pop) is what lifo_chain_sorted / parsec_lifo_pop guarantee (counter bump on every update, "
+                  "checked for lifo_chain_sorted here, for parsec_lifo_pop in C30) plus the caller's single_writer promise (NOT checked: "
+                  "__parsec_reschedule may schedule on another stream's LIFO with th_id != 0); lifo_chain_sorted is run on small items "
+                  "{list_item, prio} through its own offset parameter instead of parsec_task_t"],
     assumptions=["NO concurrency: atomics and locks run without interference (the property's concurrent schedule/select clause is not decided)",
                  "every module's schedule() answers 0 (obligation sched_<M>_schedule.post.returns_success for the covered modules; by "
                  "inspection for the others) - used as precondition of __parsec_schedule_vp",
@@ -126,9 +164,11 @@ MANIFEST = dict(
          "__parsec_schedule_flush_private) and on schedule/select of the list-based scheduler modules ap, ip, rnd, spq, gd, discharged by CBMC with "
          "ghost bookkeeping of the multiset of held tasks: no task is lost, duplicated or invented, a non-empty module never answers NULL, "
          "for symbolic priorities, distances, streams and flags. Level 'other': bounded - VP/stream/ring shapes (<= 2 VP x 2 streams, rings <= 3) "
-         "and module histories (<= 4 tasks, <= 3 schedule calls, enumerated scripts) are fixed per cbmc process; 5 of the 11 modules covered.",
-    note="NOT COVERED: modules ll, lfq, lhq, ltq, pbq, llp. ll was tried (real lifo.h, 128-bit counted-pointer CAS): path-wise > 4 min for a "
-         "4-operation history, monolithic > 200 s and 12-23 GB even for 'S(1) X X' - dropped; the hbbuffer / maxheap modules and llp were not "
+         "and module histories (<= 4 tasks, <= 3 schedule calls, enumerated scripts) are fixed per cbmc process; 5 of the 11 modules covered "
+         "end to end, plus the insertion helpers of llp (lifo_chain_sorted / lifo_merge_ring) sequentially and under rely/guarantee interference "
+         "(pool of 3-4 items, ring 1-2, <= 1-2 induced CAS failures, <= 1 repeat round).",
+    note="NOT COVERED: modules ll, lfq, lhq, ltq, pbq; of llp only the helpers lifo_chain_sorted / lifo_merge_ring are covered (not flow_llp_init, sched_llp_schedule / _select as a module, which wrap them and parsec_lifo_pop = C30). ll was tried (real lifo.h, 128-bit counted-pointer CAS): path-wise > 4 min for a "
+         "4-operation history, monolithic > 200 s and 12-23 GB even for 'S(1) X X' - dropped; the hbbuffer / maxheap modules were not "
          "attempted (their helpers are properties C35 / C30; their multi-barrier flow_init has no valid sequential order for 2 streams with a no-op barrier); any concurrent interleaving; more than 2 streams, rings > 3, more than 4 tasks; the real flow_<M>_init is NOT run: the "
          "history jobs start from a hand-written copy of the state it leaves (see trusted base); cross-VP isolation inside a module (one VP per harness). "
          "The composition __parsec_schedule_vp (head retained) ; __parsec_schedule_flush_private was a genuine latent defect for rings >= 2 "
